@@ -41,6 +41,7 @@ structure Obs where
   phase : String
   bg : Nat
   bgkind : String
+  bgdetail : String
   neutral : String
 
 /-- C29-F9: (function, fragment of the panic message) pairs of out-of-domain arguments that panic in library code -/
@@ -55,6 +56,9 @@ def attributeTo (o : Obs) : Option String :=
      && (o.neutral == "ok" || o.neutral == "err") then some "C29-F1"
   else if o.outcome == "abort" && o.kind == "stack-overflow" && chainOps up ≥ 2000 then some "C29-F2"
   else if o.outcome == "timeout" && o.phase == "parse" && maxDepth o.sql ≥ 41 && (contains up "CAST(" || contains up "ARRAY[") then some "C29-F3"
+  else if groupKeys up ≥ 9 && ((o.outcome == "panic" && contains o.kind "morsel_agg::AggregationState::find_perfect_index")
+       || ((o.outcome == "ok" || o.outcome == "err") && o.bg > 0 && contains o.bgkind "get_or_assign_perfect_index"))
+     && (contains o.detail "the len is 8 but the index is 8" || contains o.bgdetail "the len is 8 but the index is 8") then some "C29-F4"
   else if o.outcome == "panic" && contains o.kind "hash_join.rs" && contains o.detail "index out of bounds"
      && (contains up "JOIN" || contains up " IN (" || contains up "INTERSECT" || contains up "EXCEPT" || contains up "EXISTS") then some "C29-F5"
   else if o.outcome == "panic" && (contains o.kind "physical::operators::filter::" || contains o.kind "physical::operators::hash_agg")
@@ -80,7 +84,7 @@ def sqlHandler (c i : Json) : Except String Driver.Verdict := do
       match c.getObjValAs? (Array String) "sqls" with | .ok a => (a.toList.getLast?).getD "" | .error _ => ""
     else strOr c "sql"
   let o : Obs := { setup := strOr c "setup" "std", sql := sql, outcome := ← Driver.getStr i "outcome", kind := strOr i "kind",
-                   detail := strOr i "detail", phase := strOr i "phase", bg := natOr i "bg", bgkind := strOr i "bgkind",
+                   detail := strOr i "detail", phase := strOr i "phase", bg := natOr i "bg", bgkind := strOr i "bgkind", bgdetail := strOr i "bgdetail",
                    neutral := strOr i "neutral" }
   let fine := (o.outcome == "ok" || o.outcome == "err") && o.bg == 0
   let why : Option String :=
